@@ -292,6 +292,18 @@ func (im *impl) exec(line string) (string, string) {
 		}
 		im.c.RemoveReplica(im.addr(i))
 		return line, im.state("ok")
+	case "regq":
+		// a quorum (arbiter) replica registers: no data, never elected; with a controller that has just started
+		// it must not change when the election happens
+		im.w.ResetLog()
+		im.c.RegisterReplica(types.RegReplica{Address: "127.0.250.250", UUID: "uq", RevCount: 0, RepType: "quorum", RepState: "closed"})
+		res := "ok"
+		for _, s := range im.w.Signals {
+			if strings.HasSuffix(s, ":start") {
+				res = "signalled-" + s
+			}
+		}
+		return line, im.state(res)
 	case "snap":
 		// a user-created volume snapshot through the real controller
 		if _, err := im.c.Snapshot(fmt.Sprintf("s%d", im.nextSnap)); err != nil {
@@ -397,6 +409,12 @@ func generate(rng *rand.Rand, hosts []string, steps int, anyStop bool) *gen {
 			}
 			if len(cands) == 0 {
 				break // everybody registered and nobody could be elected
+			}
+			if !registered[-1] && rng.Intn(4) == 0 {
+				registered[-1] = true
+				g.do("regq")
+				g.feat["quorum-replica-registers"] = true
+				continue
 			}
 			i := cands[rng.Intn(len(cands))]
 			registered[i] = true
